@@ -1,8 +1,38 @@
-(* C13 — statements are added as the proofs land (see DESIGN.md section 6). *)
-From Coq Require Import String Ascii List.
-From Bkl Require Import Model.Value Model.Str Proofs.StrProofs.
+(* C13 — interpolation and $env substitute exactly the referenced values.
+   Statements only; proofs in Proofs/InterpProofs.v.
+   [tmpl segs last] = l1{r1}l2{r2}...last; [nobrace l]: l has no '{'; [noclose r]: r has no '}' and no newline. *)
+From Coq Require Import String Ascii List ZArith.
+From Bkl Require Import Model.Value Model.Str Model.Eval Proofs.InterpProofs.
 Import ListNotations.
+Local Open Scope string_scope.
+Local Open Scope list_scope.
 
-Theorem C13_placeholder_unescape : forall s, unescape (escape s) = s.
-Proof. exact unescape_escape. Qed.
-Print Assumptions C13_placeholder_unescape.
+(* the scanner (interpRE = {.*?}) splits a template into exactly its literal segments and references,
+   for any number of segments; all other text is left unchanged *)
+Theorem C13_scan : forall segs last,
+  Forall (fun lr => nobrace (fst lr) /\ noclose (snd lr)) segs -> nobrace last ->
+  scan (tmpl segs last) EmptyString None = flat_map (fun lr => [Lit (fst lr); Ref (snd lr)]) segs ++ [Lit last].
+Proof. exact scan_template. Qed.
+Print Assumptions C13_scan.
+
+(* a missing reference or unset variable is an error, never an empty substitution *)
+Theorem C13_missing : forall o S di f ec s r,
+  is_interp s = true -> In (Ref r) (scan (trim_suffix """" (trim_prefix "$""" s)) EmptyString None) ->
+  (exists e, get_with_var o S di ec r = Err e) ->
+  exists e, p2_string o S di (Datatypes.S f) ec s = Err e.
+Proof. exact interp_missing. Qed.
+Print Assumptions C13_missing.
+
+(* $env:NAME yields the variable's value, and fails when the variable is unset *)
+Theorem C13_env_value : forall o S di fuel ec n,
+  p2_string o S di fuel ec ("$env:" ++ n) = match lookup ("$env:" ++ n) ec with Some v => Ok v | None => Err EVarNotFound end.
+Proof. exact env_value. Qed.
+Print Assumptions C13_env_value.
+
+(* ... always as a string: the environment context binds strings only *)
+Theorem C13_env_strings : forall o k v, lookup k (env_ctx o) = Some v -> exists s, v = VStr s.
+Proof. intros o k v H. unfold env_ctx in H. eapply env_ctx_strings; [|exact H]. intros k' v' L. discriminate L. Qed.
+Print Assumptions C13_env_strings.
+
+Example C13_scan_example : scan "a{x.y}-{$env:V}}z" EmptyString None = [Lit "a"; Ref "x.y"; Lit "-"; Ref "$env:V"; Lit "}z"].
+Proof. reflexivity. Qed.
